@@ -9,7 +9,7 @@ None == [none |-> TRUE]
 Fresh(stim) == [stim |-> stim, rejected |-> <<>>, built |-> FALSE, reqHead |-> None, srv |-> None, respHead |-> None, cli |-> None,
                 reqTr |-> 0, reqData |-> <<>>, respData |-> <<>>, respTrs |-> <<>>, respEnd |-> FALSE, rawSent |-> None, bodies |-> FALSE]
 Is(x) == "none" \notin DOMAIN x
-Keys == {"runs", "inproc", "h2", "raw", "unary", "cstream", "sstream", "bidi", "handler_errors", "fail_before", "compressed_resp",
+Keys == {"limit_hits", "runs", "inproc", "h2", "raw", "unary", "cstream", "sstream", "bidi", "handler_errors", "fail_before", "compressed_resp",
          "compressed_req", "with_req_meta", "with_err_meta", "trailers_only", "refused"}
 Init == InitK(Fresh([mode |-> "none"]), Keys)
 
@@ -24,7 +24,8 @@ Reset == ResetK(Fresh(E.stim))
                   \cup (IF E.stim.mode = "client" /\ E.stim.script.fail_before THEN {"fail_before"} ELSE {})
                   \cup (IF E.stim.mode = "client" /\ E.stim.req.meta # <<>> THEN {"with_req_meta"} ELSE {})
                   \cup (IF E.stim.mode = "client" /\ ~E.stim.script.end.ok /\ E.stim.script.end.meta # <<>> THEN {"with_err_meta"} ELSE {})
-                  \cup (IF E.stim.mode = "client" /\ EncRefused(E.stim) THEN {"refused"} ELSE {}))
+                  \cup (IF E.stim.mode = "client" /\ EncRefused(E.stim) THEN {"refused"} ELSE {})
+                  \cup (IF E.stim.mode = "client" /\ LimitHit(E.stim) THEN {"limit_hits"} ELSE {}))
 
 CliBuilt == /\ Live("cli_built") /\ UNCHANGED stats
             /\ JudgeK(<< <<"HarnessOK", ClientMode>> >>, [s EXCEPT !.rejected = E.rejected, !.built = TRUE])
@@ -44,14 +45,16 @@ FrameEv == /\ Live("frame")
                            ELSE [s EXCEPT !.respEnd = TRUE])
                  /\ UNCHANGED stats
 SrvReq == /\ Live("srv_req") /\ UNCHANGED stats
-          /\ IF ClientMode
+          /\ IF ClientMode /\ LimitHit(s.stim) THEN JudgeK(<< <<"C02.HandlerRunsOnce", ~Is(s.srv)>> >>, [s EXCEPT !.srv = E])
+             ELSE IF ClientMode
              THEN JudgeK(HandlerClauses(s.stim, E, ReqMeta) \o << <<"C05.RefusedBeforeHandler", ~EncRefused(s.stim)>>, <<"C02.HandlerRunsOnce", ~Is(s.srv)>> >>,
                          [s EXCEPT !.srv = E])
              ELSE JudgeK(<< <<"C02.HandlerRunsOnce", ~Is(s.srv)>> >>, [s EXCEPT !.srv = E])
 RespHead == /\ Live("resp_head") /\ UNCHANGED stats
             /\ JudgeK(<< <<"HarnessOK", ~Is(s.respHead)>> >>, [s EXCEPT !.respHead = E])
 Cli == /\ Live("cli") /\ UNCHANGED stats
-       /\ JudgeK((IF EncRefused(s.stim)
+       /\ JudgeK((IF LimitHit(s.stim) THEN LimitClauses(s.stim, E, IF Is(s.srv) THEN s.srv.msgs ELSE <<>>, Is(s.srv))
+                  ELSE IF EncRefused(s.stim)
                   THEN << <<"C05.UnsupportedRequestEncodingIsUnimplemented", ~E.ok /\ E.st.code = 12>> >>
                   ELSE ClientClauses(s.stim, E)) \o << <<"HarnessOK", ~Is(s.cli)>> >>, [s EXCEPT !.cli = E])
 \* events of other labs' concerns (deadline timing, handler completion) carry no clause here
@@ -93,11 +96,11 @@ Bodies == /\ Live("bodies")
           /\ LET off == IF ClientMode THEN SeqToSet(s.stim.client.accept) ELSE {} IN
              JudgeK(<< <<"RecorderHonest", E.req.bytes = s.reqData /\ E.resp.bytes = s.respData>>,
                        <<"HintsAligned", HintsOK(E.req.bytes, E.req.frames) /\ HintsOK(E.resp.bytes, E.resp.frames)>> >>
-                    \o (IF ClientMode /\ Tapped /\ Is(s.reqHead) /\ ~EncRefused(s.stim) THEN   \* a refused request's body is never read
+                    \o (IF ClientMode /\ Tapped /\ Is(s.reqHead) /\ ~EncRefused(s.stim) /\ ~LimitHit(s.stim) THEN   \* a refused request's body is never read
                            << <<"C03.RequestBodyIsTheMessages", BodyCarries(E.req.bytes, E.req.frames, s.stim.req.msgs, s.stim.client.send)>>,
                               <<"C05.ClientCompressesAsConfigured", IF s.stim.client.send = "" THEN NoneFlagged(E.req.bytes) ELSE AllFlagged(E.req.bytes)>> >>
                         ELSE <<>>)
-                    \o (IF ClientMode /\ Tapped /\ Is(s.respHead) /\ ~EncRefused(s.stim) THEN
+                    \o (IF ClientMode /\ Tapped /\ Is(s.respHead) /\ ~EncRefused(s.stim) /\ ~LimitHit(s.stim) THEN
                            ResponseClauses(s.stim, s.respHead.status, s.respHead.list, E.resp.bytes, E.resp.frames, s.respTrs, off)
                         ELSE <<>>)
                     \o (IF ~ClientMode /\ Is(s.respHead) /\ Is(s.rawSent) THEN
@@ -112,7 +115,7 @@ End == EndK(<< <<"RunComplete", E.outcome = "ok" =>
                    /\ (ClientMode => Is(s.cli))
                    /\ (Tapped => Is(s.respHead))
                    /\ ((ClientMode /\ Tapped) => Is(s.reqHead))>>,
-               <<"C02.HandlerInvoked", (E.outcome = "ok" /\ ClientMode /\ ~EncRefused(s.stim)) => Is(s.srv)>> >>)
+               <<"C02.HandlerInvoked", (E.outcome = "ok" /\ ClientMode /\ ~EncRefused(s.stim) /\ ~LimitHit(s.stim)) => Is(s.srv)>> >>)
 
 Known == {"timing", "srv_done", "reset", "cli_built", "req_head", "frame", "srv_req", "resp_head", "cli", "connect_err", "raw_sent", "raw_err", "bodies", "end"}
 Next == Reset \/ CliBuilt \/ ReqHead \/ FrameEv \/ SrvReq \/ RespHead \/ Cli \/ ConnectErr \/ RawSent \/ RawErr \/ Bodies \/ End \/ Ignore
